@@ -26,6 +26,7 @@ limited(): the token limit was hit); SyntaxTreeBuilder = text(): concatenation o
 Still assumed: the Lexer contract (proved for Cursor::advance in unit `lexer`), validate_name never fires on Name tokens,
 peek_n / peek_token_n / peek_data_n (look-ahead on a clone of the lexer; results unconstrained), rowan.
 """
+import re
 from limits import UNIT as LIMITS_UNIT
 from lexer_next import TOK_OK, NEXT_POST, NEW_POST   # the Lexer contract: PROVED for the real Lexer::next / new in unit lexer_next; assumed here (same text)
 
@@ -378,7 +379,12 @@ KEEP = ("ensures", "significant_lookahead_kept", "(old(self).current_token is So
 FLUSH = ("ensures", "queue_flushed_before_significant_lookahead", "(old(self).current_token is Some && !ignored_kind(old(self).current_token->0.kind)) ==> final(self).pending@.len() == 0 && final(self).builder.text() =~= old(self).builder.text() + pending_text(old(self).pending@)")
 
 
+EOF_STABLE_SELF = ("ensures", "eof_stays_consumed", "old(self).eof_consumed() ==> final(self).eof_consumed()")
+
+
 def P(name, clauses, **kw):
+    if clauses and clauses[0] is WF and name not in ("pop", "push_token", "next_token"):
+        clauses = list(clauses) + [EOF_STABLE_SELF]
     d = dict(file=PM, kind="fn", name=name, container=r"Parser<'input>", container_name="Parser", wrap="impl<'input> Parser<'input>",
              clauses=clauses, props=["C01", "C02", "C04", "C07"])
     d.update(kw)
@@ -422,20 +428,45 @@ BCAST = ("body_start", None, "broadcast use lemma_conserved_trans_auto;")
 #   gloop()              -- no progress claim
 #   gloop(cond)          -- the function consumed a token BEFORE the loop whenever `cond` held on entry (e.g. an opening bracket was bumped)
 #   gloop(cond, True)    -- nothing is consumed before the loop; whenever `cond` held on entry the FIRST iteration consumes a token
-def gloop(cond=None, first_iteration=False, extra=None):
-    inv = [("conserved", "p.conserved(old(p)), p.fuel() <= old(p).fuel()")]
+def gloop(cond=None, first_iteration=False, extra=None, min_before=None, min_first=None, extra_ensures=None):
+    """min_before=K: K significant tokens were added before the loop whenever no error was reported;
+    min_first=(K, cond): the first iteration adds K significant tokens whenever `cond` held on entry and no error was reported."""
+    CLEAN = "p.clean_since(old(p)) && !p.eof_consumed()"
+    inv = [("conserved", "p.conserved(old(p)), p.fuel() <= old(p).fuel()"),
+           ("eof_stays_consumed", "old(p).eof_consumed() ==> p.eof_consumed()")]
     ens = []
     if cond and not first_iteration:
         inv.append(("progress", "(%s) ==> p.fuel() < old(p).fuel()" % cond))
     if cond and first_iteration:
         inv.append(("progress_or_untouched", "(%s) ==> (p.fuel() < old(p).fuel() || p.current_token == old(p).current_token)" % cond))
         ens.append(("progress", "(%s) ==> p.fuel() < old(p).fuel()" % cond))
+    if min_before is not None:
+        for mb in (min_before if isinstance(min_before, list) else [min_before]):
+            k, c = mb if isinstance(mb, tuple) else (mb, None)
+            inv.append(("tokens_so_far_%d" % k, "(%s%s) ==> p.builder.nsig() >= old(p).builder.nsig() + %d" % (CLEAN, (" && (%s)" % c) if c else "", k), ["C05"]))
+    if min_first is not None:
+        k, c = min_first
+        inv.append(("tokens_so_far_or_untouched", "(%s && (%s)) ==> (p.builder.nsig() >= old(p).builder.nsig() + %d || p.current_token == old(p).current_token)" % (CLEAN, c, k), ["C05"]))
+        ens.append(("tokens_after_first_iteration", "(%s && (%s)) ==> p.builder.nsig() >= old(p).builder.nsig() + %d" % (CLEAN, c, k), ["C05"]))
     if extra:
         inv += extra
+    if extra_ensures:
+        ens += extra_ensures
     d = dict(invariant=inv, decreases="p.fuel()")
     if ens:
         d["ensures"] = ens
     return d
+
+
+EOF_STABLE = ("ensures", "eof_stays_consumed", "old(p).eof_consumed() ==> final(p).eof_consumed()")
+
+
+def MIN_SIG(n, cond=None):
+    """C05 (necessary condition of grammar membership): if the function reports no error (and the end of input was not swallowed by an
+    error path), it has added at least `n` significant tokens to the tree -- the length of the shortest sentence of its production.
+    An implementation that silently accepts an EMPTY list or a MISSING mandatory token violates this."""
+    pre = "final(p).clean_since(old(p)) && !final(p).eof_consumed()" + ((" && (%s)" % cond) if cond else "")
+    return ("ensures", "no_error_means_at_least_%d_significant_tokens%s" % (n, "_when_" + re.sub(r"[^A-Za-z]+", "_", cond).strip("_")[:40] if cond else ""), "(%s) ==> final(p).builder.nsig() >= old(p).builder.nsig() + %d" % (pre, n), ["C05"])
 
 
 def GF(fname, name, progress=None, extra=None, **kw):
@@ -448,6 +479,11 @@ def GF(fname, name, progress=None, extra=None, **kw):
         cl.append(("decreases", None, kw.pop("decreases")))
     if progress:
         cl.append(("ensures", "progress", "(%s) ==> final(p).fuel() < old(p).fuel()" % progress))
+    cl.append(EOF_STABLE)
+    ms = kw.pop("min_sig", None)
+    if ms is not None:
+        for m1 in (ms if isinstance(ms, list) else [ms]):
+            cl.append(MIN_SIG(*m1) if isinstance(m1, tuple) else MIN_SIG(m1))
     cl += extra or []
     d = dict(file=GDIR + fname, kind="fn", name=name, clauses=cl, props=["C01", "C02", "C04"], hints=[BCAST])
     hints = kw.pop("hints", None)
@@ -458,6 +494,9 @@ def GF(fname, name, progress=None, extra=None, **kw):
 
 
 LOOK = "old(p).has_sig()"
+def KW(word):
+    """the look-ahead on entry is the (significant) token with exactly this text"""
+    return 'old(p).has_sig() && old(p).current_token->0.data == "%s"' % word
 SCHEMA_START = "old(p).at_kind(TokenKind::StringValue) || (old(p).has_sig() && old(p).current_token->0.data == \"schema\")"
 NS = "old(p).at_kind(TokenKind::Name) || old(p).at_kind(TokenKind::StringValue)"   # a definition starts with its keyword (a Name) or with a description
 def AT(k):
@@ -466,7 +505,7 @@ def AT(k):
 
 UNIT = {
     "name": "parser_core",
-    "properties": ["C01", "C02", "C04", "C07"],
+    "properties": ["C01", "C02", "C04", "C05", "C07"],
     "rlimit_retry": [60, 200],
     "parts": [
         PRELUDE_1,
@@ -566,7 +605,7 @@ UNIT = {
                            ],
           n_loops=1,
           loops=[dict(invariant=[("conserved", "self.conserved(old(self)), self.builder == old(self).builder"), ("fuel", "self.fuel() <= old(self).fuel()"),
-                                 ("eof_not_consumed", "!old(self).eof_consumed() ==> !self.eof_consumed()"),
+                                 ("eof_not_consumed", "!old(self).eof_consumed() ==> !self.eof_consumed()"), ("eof_stays_consumed", "old(self).eof_consumed() ==> self.eof_consumed()"),
                                  ("significant_lookahead_kept", "(old(self).current_token is Some && !ignored_kind(old(self).current_token->0.kind)) ==> self.current_token == old(self).current_token && self.lexer == old(self).lexer && self.errors == old(self).errors && self.accept_errors == old(self).accept_errors && self.pending == old(self).pending")],
                       ensures=[("stops_at_significant", "self.current_token is Some ==> !ignored_kind(self.current_token->0.kind)"),
                                ("none_means_exhausted", "self.current_token is None ==> (self.lexer.limited() || (self.lexer.done() && self.lexer.rest() =~= Seq::<char>::empty()))")],
@@ -660,7 +699,7 @@ UNIT = {
         dict(file=PM, kind="const", name="DEFAULT_RECURSION_LIMIT"),
         P("new", [("ensures", "initial_state", "r.wf() && r.all_text() =~= input@ && r.errors@.len() == 0 && r.recursion_limit.current == 0 && r.builder.text() =~= Seq::<char>::empty() && r.current_token is None && r.pending@.len() == 0 && !r.eof_consumed() && r.builder.sig() =~= Seq::<SyntaxKind>::empty()")],
           rewrites=[("Rc::new(RefCell::new(SyntaxTreeBuilder::new()))", "SyntaxTreeBuilder::new()", 1)], props=["C02", "C01"]),
-        G(TY, "parse", [GWF,
+        G(TY, "parse", [GWF, EOF_STABLE,
             ("ensures", "lossless", "final(p).all_text() =~= old(p).all_text()", ["C02"]),
             ("ensures", "advanced", "final(p).advanced(old(p))"),
             ("ensures", "fuel", "final(p).fuel() <= old(p).fuel() && (res is Ok ==> final(p).fuel() < old(p).fuel())"),
@@ -692,15 +731,15 @@ UNIT = {
               ("after", "p.eat(S![!]);", "proof { if p.clean_since(&*old(p)) { lemma_non_null_type(t1.new_sig(&*old(p))); assert(p.new_sig(&*old(p)) =~= t1.new_sig(&*old(p)).push(SyntaxKind::BANG)); } }"),
               ("before", "Ok(())\n}", "proof { if p.clean_since(&*old(p)) { lemma_non_null_type(t1.new_sig(&*old(p))); } }"),
           ]),
-        G(TY, "ty", [GWF, ("ensures", "conserved", "final(p).conserved(old(p))"), ("ensures", "fuel", "final(p).fuel() <= old(p).fuel()")],
+        G(TY, "ty", [GWF, EOF_STABLE, MIN_SIG(1), ("ensures", "conserved", "final(p).conserved(old(p))"), ("ensures", "fuel", "final(p).fuel() <= old(p).fuel()")],
           hints=[("body_start", None, "broadcast use lemma_conserved_trans_auto;")],
           ),
-        G(TY, "named_type", [GWF, ("ensures", "conserved", "final(p).conserved(old(p))"), ("ensures", "fuel", "final(p).fuel() <= old(p).fuel()")],
+        G(TY, "named_type", [GWF, EOF_STABLE, MIN_SIG(1, "old(p).at_kind(TokenKind::Name)"), ("ensures", "conserved", "final(p).conserved(old(p))"), ("ensures", "fuel", "final(p).fuel() <= old(p).fuel()")],
           hints=[("body_start", None, "broadcast use lemma_conserved_trans_auto;")]),
     
         # standalone type: leading ignored tokens stay queued and are attached inside the root node when it is started
         # (start_node / checkpoint_node are root-aware), so the text is conserved here too.
-        G(TY, "standalone_ty", [GWF, ("requires", "fresh", "!old(p).eof_consumed()"),
+        G(TY, "standalone_ty", [GWF, EOF_STABLE, ("requires", "fresh", "!old(p).eof_consumed()"),
                                 ("ensures", "conserved_except_the_known_finding_of_parse", "final(p).advanced(old(p))"), ("ensures", "fuel", "final(p).fuel() <= old(p).fuel()"),
                                 ("ensures", "leading_ignored_tokens_are_kept", "final(p).all_text() =~= old(p).all_text()", ["C02", "C11"]),
                                 ("ensures", "missing_type_is_reported", "final(p).builder.nsig() == old(p).builder.nsig() ==> (final(p).errors@.len() > old(p).errors@.len() || !final(p).accept_errors)", ["C07"]),
@@ -708,108 +747,102 @@ UNIT = {
           hints=[("body_start", None, "broadcast use lemma_conserved_trans_auto;"),
                  ("after", "p.skip_ignored();", "let ghost s1 = *p;")]),
     
-        G(SEL, "selection_set", [GWF, ("ensures", "conserved", "final(p).conserved(old(p))"), ("ensures", "fuel", "final(p).fuel() <= old(p).fuel()"),
+        G(SEL, "selection_set", [GWF, EOF_STABLE, MIN_SIG(3, 'old(p).at_kind(TokenKind::LCurly)'), ("ensures", "conserved", "final(p).conserved(old(p))"), ("ensures", "fuel", "final(p).fuel() <= old(p).fuel()"),
                                  ("ensures", "progress", "old(p).at_kind(TokenKind::LCurly) ==> final(p).fuel() < old(p).fuel()"), ("decreases", None, "old(p).fuel(), 1int")],
           hints=[("body_start", None, "broadcast use lemma_conserved_trans_auto;")]),
-        G(SEL, "field_set", [GWF, ("ensures", "conserved", "final(p).conserved(old(p))"), ("ensures", "fuel", "final(p).fuel() <= old(p).fuel()")],
+        G(SEL, "field_set", [GWF, EOF_STABLE, MIN_SIG(1), ("ensures", "conserved", "final(p).conserved(old(p))"), ("ensures", "fuel", "final(p).fuel() <= old(p).fuel()")],
           hints=[("body_start", None, "broadcast use lemma_conserved_trans_auto;")]),
         dict(file=VAL, kind="enum", name="Constness", attrs="#[derive(Clone, Copy)]"),
-        G(VAL, "object_field", [GWF, ("ensures", "conserved", "final(p).conserved(old(p))"),
+        G(VAL, "object_field", [GWF, EOF_STABLE, MIN_SIG(3), ("ensures", "conserved", "final(p).conserved(old(p))"),
                                 ("ensures", "fuel", "final(p).fuel() <= old(p).fuel() && ((old(p).current_token is Some && old(p).current_token->0.kind is Name) ==> final(p).fuel() < old(p).fuel())"),
                                 ("decreases", None, "old(p).fuel(), 1int")],
           hints=[("body_start", None, "broadcast use lemma_conserved_trans_auto;")],
           rewrites=[("p.recursion_limit.decrement()\n", "p.recursion_limit.decrement();\n", 1)]),
 
         # ---------------- the value cycle: value -> list_value -> value, value -> object_value -> object_field -> value ----------------
-        G(VAL, "enum_value", [GWF, ("ensures", "conserved", "final(p).conserved(old(p))"),
+        G(VAL, "enum_value", [GWF, EOF_STABLE, MIN_SIG(1), ("ensures", "conserved", "final(p).conserved(old(p))"),
                               ("ensures", "fuel", "final(p).fuel() <= old(p).fuel() && ((old(p).current_token is Some && old(p).current_token->0.kind is Name) ==> final(p).fuel() < old(p).fuel())")],
           hints=[("body_start", None, "broadcast use lemma_conserved_trans_auto;")]),
-        G(VAL, "default_value", [GWF, ("requires", "significant_lookahead", "old(p).current_token is Some && !ignored_kind(old(p).current_token->0.kind)"), ("ensures", "conserved", "final(p).conserved(old(p))"), ("ensures", "fuel", "final(p).fuel() <= old(p).fuel()")],
+        G(VAL, "default_value", [GWF, EOF_STABLE, MIN_SIG(2), ("requires", "significant_lookahead", "old(p).current_token is Some && !ignored_kind(old(p).current_token->0.kind)"), ("ensures", "conserved", "final(p).conserved(old(p))"), ("ensures", "fuel", "final(p).fuel() <= old(p).fuel()")],
           hints=[("body_start", None, "broadcast use lemma_conserved_trans_auto;")]),
-        G(VAL, "value", [GWF, ("ensures", "conserved", "final(p).conserved(old(p))"),
+        G(VAL, "value", [GWF, EOF_STABLE, MIN_SIG(1), ("ensures", "conserved", "final(p).conserved(old(p))"),
                          ("ensures", "fuel", "final(p).fuel() <= old(p).fuel() && ((pop_on_error && old(p).current_token is Some) ==> final(p).fuel() < old(p).fuel())"),
                          ("decreases", None, "old(p).fuel(), 2int")],
           hints=[("body_start", None, "broadcast use lemma_conserved_trans_auto;")]),
-        G(VAL, "list_value", [GWF, ("requires", "significant_lookahead", "old(p).current_token is Some && !ignored_kind(old(p).current_token->0.kind)"), ("ensures", "conserved", "final(p).conserved(old(p))"),
+        G(VAL, "list_value", [GWF, EOF_STABLE, MIN_SIG(1), MIN_SIG(2, "!final(p).at_kind(TokenKind::Eof)"), ("requires", "significant_lookahead", "old(p).current_token is Some && !ignored_kind(old(p).current_token->0.kind)"), ("ensures", "conserved", "final(p).conserved(old(p))"),
                               ("ensures", "fuel", "final(p).fuel() <= old(p).fuel() && (old(p).current_token is Some ==> final(p).fuel() < old(p).fuel())"),
                               ("decreases", None, "old(p).fuel(), 1int")],
-          n_loops=1,
-          # peek_while inlined (its body: `while let Some(kind) = self.peek() { match run(self, kind) { Break => break, Continue => {} } }`; frame check peek_while_is_the_plain_loop)
-          rewrites=[("p.peek_while(|p, node| {", "while let Some(node) = p.peek() { let __cf: ControlFlow<()> = {", 1),
-                    ("    });\n}", "    }; match __cf { ControlFlow::Break(()) => break, ControlFlow::Continue(()) => {} } }\n}", 1)],
-          loops=[dict(invariant=[("conserved", "p.conserved(old(p)), p.fuel() < old(p).fuel()")],
-                      decreases="p.fuel()")],
-          hints=[("body_start", None, "broadcast use lemma_conserved_trans_auto;"),
-                 ("after", "while let Some(node) = p.peek() { let __cf: ControlFlow<()> = {", "let ghost s3 = *p;"),
-                 ("before", "value(p, constness, true);", "let ghost s4 = *p; proof { assert(p.recursion_limit.current == s3.recursion_limit.current + 1 && p.recursion_limit.current <= p.recursion_limit.limit); /* C01: nesting depth is bounded by the limit */ }"),
-                 ("after", "value(p, constness, true);", "let ghost s5 = *p;"),
-                 ("after", "p.recursion_limit.decrement();", "proof { lemma_depth_roundtrip(&s3, &s4, &s5, &*p); }")]),
-        G(VAL, "object_value", [GWF, ("requires", "significant_lookahead", "old(p).current_token is Some && !ignored_kind(old(p).current_token->0.kind)"), ("ensures", "conserved", "final(p).conserved(old(p))"),
+          inline_combinators=1, n_loops=1,
+          loops=[gloop(LOOK, min_before=1, extra=[("strictly_below_entry", "p.fuel() < old(p).fuel()")],
+                       extra_ensures=[("closed_or_at_end_of_input", "(p.clean_since(old(p)) && !p.eof_consumed() && !p.at_kind(TokenKind::Eof)) ==> p.builder.nsig() >= old(p).builder.nsig() + 2", ["C05"])])],
+          hints=[("body_start", None, "broadcast use lemma_conserved_trans_auto;")]),
+        G(VAL, "object_value", [GWF, EOF_STABLE, MIN_SIG(2), ("requires", "significant_lookahead", "old(p).current_token is Some && !ignored_kind(old(p).current_token->0.kind)"), ("ensures", "conserved", "final(p).conserved(old(p))"),
                                 ("ensures", "fuel", "final(p).fuel() <= old(p).fuel() && (old(p).current_token is Some ==> final(p).fuel() < old(p).fuel())"),
                                 ("decreases", None, "old(p).fuel(), 1int")],
-          n_loops=1,
-          rewrites=[("p.peek_while_kind(TokenKind::Name, |p| {", "while let Some(__kind) = p.peek() { if __kind != TokenKind::Name { break; } {", 1),
-                    ("    });\n\n    p.expect", "    } }\n\n    p.expect", 1)],
-          loops=[dict(invariant=[("conserved", "p.conserved(old(p)), p.fuel() < old(p).fuel()")],
-                      decreases="p.fuel()")],
+          inline_combinators=1, n_loops=1,
+          loops=[gloop(LOOK, min_before=1, extra=[("strictly_below_entry", "p.fuel() < old(p).fuel()")])],
           hints=[("body_start", None, "broadcast use lemma_conserved_trans_auto;")]),
 
 
         # ---------------- the executable half of the grammar ----------------
-        GF("name.rs", "name", progress=AT("Name"),
+        GF("name.rs", "name", min_sig=1, progress=AT("Name"),
            extra=[("ensures", "other_lookahead_kept", "(old(p).has_look() && !old(p).at_kind(TokenKind::Name)) ==> final(p).current_token == old(p).current_token && final(p).lexer == old(p).lexer"),
                   ("ensures", "ready_after", "final(p).ready()")]),
-        GF("name.rs", "alias", progress=LOOK),
-        GF("variable.rs", "variable", progress=LOOK),
-        GF("variable.rs", "variable_definition", progress=LOOK),
-        GF("variable.rs", "variable_definitions", progress=LOOK, inline_combinators=1, n_loops=1, loops=[gloop(LOOK)]),
-        GF("argument.rs", "argument", progress=AT("Name")),
-        GF("argument.rs", "arguments", progress=LOOK, inline_combinators=1, n_loops=1, loops=[gloop(LOOK)]),
-        GF("directive.rs", "directive", progress=AT("At")),
-        GF("directive.rs", "directives", progress=AT("At"), inline_combinators=1, n_loops=1, loops=[gloop(AT("At"), True)]),
-        GF("field.rs", "field", progress=AT("Name"), decreases="old(p).fuel(), 2int"),
-        GF("selection.rs", "selection", decreases="old(p).fuel(), 3int",
+        GF("name.rs", "alias", min_sig=2, progress=LOOK),
+        GF("variable.rs", "variable", min_sig=2, progress=LOOK),
+        GF("variable.rs", "variable_definition", min_sig=4, progress=LOOK),
+        GF("variable.rs", "variable_definitions", min_sig=6, progress=LOOK, inline_combinators=1, n_loops=1, loops=[gloop(LOOK, min_before=5)]),
+        GF("argument.rs", "argument", min_sig=3, progress=AT("Name")),
+        GF("argument.rs", "arguments", min_sig=5, progress=LOOK, inline_combinators=1, n_loops=1, loops=[gloop(LOOK, min_before=4)]),
+        GF("directive.rs", "directive", min_sig=2, progress=AT("At")),
+        GF("directive.rs", "directives", progress=AT("At"), min_sig=(2, AT("At")), inline_combinators=1, n_loops=1, loops=[gloop(AT("At"), True, min_first=(2, AT("At")))]),
+        GF("field.rs", "field", min_sig=1, progress=AT("Name"), decreases="old(p).fuel(), 2int"),
+        GF("selection.rs", "selection", min_sig=1, decreases="old(p).fuel(), 3int",
            extra=[("requires", "called_one_nesting_level_down", "old(p).recursion_limit.current > 0", ["C04"])],   # every selection list is parsed inside a counted nesting level
-           inline_combinators=1, n_loops=1, loops=[gloop()]),
-        GF("fragment.rs", "fragment_definition", progress=LOOK),
-        GF("fragment.rs", "fragment_name"),
-        GF("fragment.rs", "type_condition"),
-        GF("fragment.rs", "inline_fragment", progress=LOOK, decreases="old(p).fuel(), 2int"),
-        GF("fragment.rs", "fragment_spread", progress=LOOK),
-        GF("operation.rs", "operation_definition", progress=LOOK),
-        GF("operation.rs", "operation_type", progress=LOOK),
+           inline_combinators=1, n_loops=1,
+           loops=[gloop(extra=[("a_selection_means_a_token", "has_selection ==> ((p.clean_since(old(p)) && !p.eof_consumed()) ==> p.builder.nsig() >= old(p).builder.nsig() + 1)", ["C05"])])]),
+        GF("fragment.rs", "fragment_definition", min_sig=7, progress=LOOK),
+        GF("fragment.rs", "fragment_name", min_sig=1),
+        GF("fragment.rs", "type_condition", min_sig=2),
+        GF("fragment.rs", "inline_fragment", min_sig=4, progress=LOOK, decreases="old(p).fuel(), 2int"),
+        GF("fragment.rs", "fragment_spread", min_sig=2, progress=LOOK),
+        GF("operation.rs", "operation_definition", min_sig=3, progress=LOOK),
+        GF("operation.rs", "operation_type", min_sig=1, progress=LOOK),
 
 
         # ---------------- the type-system half of the grammar ----------------
-        GF("description.rs", "description", progress=LOOK),
-        GF("argument.rs", "arguments_definition", progress=LOOK, inline_combinators=1, n_loops=1, loops=[gloop(LOOK)]),
-        GF("field.rs", "fields_definition", progress=LOOK, inline_combinators=1, n_loops=1, loops=[gloop(LOOK)]),
-        GF("field.rs", "field_definition", progress=NS),
-        GF("input.rs", "input_object_type_definition", progress=NS),
-        GF("input.rs", "input_object_type_extension", progress=LOOK),
-        GF("input.rs", "input_fields_definition", progress=LOOK, inline_combinators=1, n_loops=1, loops=[gloop(LOOK)]),
-        GF("input.rs", "input_value_definition", progress=NS),
-        GF("enum_.rs", "enum_type_definition", progress=NS),
-        GF("enum_.rs", "enum_type_extension", progress=LOOK),
-        GF("enum_.rs", "enum_values_definition", progress=LOOK, inline_combinators=1, n_loops=1, loops=[gloop(LOOK)]),
-        GF("enum_.rs", "enum_value_definition", progress=NS),
-        GF("union_.rs", "union_type_definition", progress=NS),
-        GF("union_.rs", "union_type_extension", progress=LOOK),
-        GF("union_.rs", "union_member_types", progress=LOOK, inline_combinators=1, n_loops=1, loops=[gloop(LOOK)]),
-        GF("interface.rs", "interface_type_definition", progress=NS),
-        GF("interface.rs", "interface_type_extension", progress=LOOK),
-        GF("object.rs", "object_type_definition", progress=NS),
-        GF("object.rs", "object_type_extension", progress=LOOK),
-        GF("object.rs", "implements_interfaces", progress=LOOK, inline_combinators=1, n_loops=1, loops=[gloop(LOOK)]),
-        GF("schema.rs", "root_operation_type_definition", progress=LOOK),
-        GF("schema.rs", "schema_definition", progress=SCHEMA_START, inline_combinators=1, n_loops=1, loops=[gloop(SCHEMA_START)]),
-        GF("schema.rs", "schema_extension", progress=LOOK, inline_combinators=1, n_loops=1, loops=[gloop(LOOK)]),
-        GF("scalar.rs", "scalar_type_definition", progress=NS),
-        GF("scalar.rs", "scalar_type_extension", progress=LOOK),
-        GF("directive.rs", "directive_definition", progress=NS, inline_combinators=1, n_loops=1, loops=[gloop(NS)]),
-        GF("directive.rs", "directive_location"),
-        GF("directive.rs", "directive_locations", inline_combinators=1, n_loops=1, loops=[gloop()]),
-        GF("extensions.rs", "extensions", progress=LOOK, extra=[("requires", "lookahead_present_or_lexer_exhausted", "old(p).ready()")]),
+        GF("description.rs", "description", min_sig=1, progress=LOOK),
+        GF("argument.rs", "arguments_definition", min_sig=5, progress=LOOK, inline_combinators=1, n_loops=1, loops=[gloop(LOOK, min_before=4)]),
+        GF("field.rs", "fields_definition", min_sig=5, progress=LOOK, inline_combinators=1, n_loops=1, loops=[gloop(LOOK, min_before=4)]),
+        GF("field.rs", "field_definition", min_sig=3, progress=NS),
+        GF("input.rs", "input_object_type_definition", min_sig=[(2, KW("input")), (1, AT("StringValue"))], progress=NS),
+        GF("input.rs", "input_object_type_extension", min_sig=5, progress=LOOK),
+        GF("input.rs", "input_fields_definition", min_sig=5, progress=LOOK, inline_combinators=1, n_loops=1, loops=[gloop(LOOK, min_before=4)]),
+        GF("input.rs", "input_value_definition", min_sig=3, progress=NS),
+        GF("enum_.rs", "enum_type_definition", min_sig=[(2, KW("enum")), (1, AT("StringValue"))], progress=NS),
+        GF("enum_.rs", "enum_type_extension", min_sig=5, progress=LOOK),
+        GF("enum_.rs", "enum_values_definition", min_sig=3, progress=LOOK, inline_combinators=1, n_loops=1, loops=[gloop(LOOK, min_before=2)]),
+        GF("enum_.rs", "enum_value_definition", min_sig=(1, NS), progress=NS),
+        GF("union_.rs", "union_type_definition", min_sig=[(2, KW("union")), (1, AT("StringValue"))], progress=NS),
+        GF("union_.rs", "union_type_extension", min_sig=5, progress=LOOK),
+        GF("union_.rs", "union_member_types", min_sig=2, progress=LOOK, inline_combinators=1, n_loops=1, loops=[gloop(LOOK, min_before=2)]),
+        GF("interface.rs", "interface_type_definition", min_sig=[(2, KW("interface")), (1, AT("StringValue"))], progress=NS),
+        GF("interface.rs", "interface_type_extension", min_sig=5, progress=LOOK),
+        GF("object.rs", "object_type_definition", min_sig=[(2, KW("type")), (1, AT("StringValue"))], progress=NS),
+        GF("object.rs", "object_type_extension", min_sig=5, progress=LOOK),
+        GF("object.rs", "implements_interfaces", min_sig=2, progress=LOOK, inline_combinators=1, n_loops=1, loops=[gloop(LOOK, min_before=2)]),
+        GF("schema.rs", "root_operation_type_definition", min_sig=3, progress=LOOK),
+        GF("schema.rs", "schema_definition", min_sig=[(6, KW("schema")), (1, AT("StringValue"))], progress=SCHEMA_START, inline_combinators=1, n_loops=1,
+           loops=[gloop(SCHEMA_START, min_before=[(2, KW("schema")), (1, AT("StringValue"))],
+                        extra=[("a_root_operation_means_three_tokens", "has_root_operation_types ==> ((p.clean_since(old(p)) && !p.eof_consumed() && (%s)) ==> p.builder.nsig() >= old(p).builder.nsig() + 5)" % KW("schema"), ["C05"])])]),
+        GF("schema.rs", "schema_extension", min_sig=4, progress=LOOK, inline_combinators=1, n_loops=1,
+           loops=[gloop(LOOK, min_before=3, extra=[("requirements_met_means_four_tokens", "meets_requirements ==> ((p.clean_since(old(p)) && !p.eof_consumed()) ==> p.builder.nsig() >= old(p).builder.nsig() + 4)", ["C05"])])]),
+        GF("scalar.rs", "scalar_type_definition", min_sig=[(2, KW("scalar")), (1, AT("StringValue"))], progress=NS),
+        GF("scalar.rs", "scalar_type_extension", min_sig=5, progress=LOOK),
+        GF("directive.rs", "directive_definition", min_sig=[(5, KW("directive")), (1, AT("StringValue"))], progress=NS, inline_combinators=1, n_loops=1, loops=[gloop(NS, min_before=[(3, KW("directive")), (1, AT("StringValue"))])]),
+        GF("directive.rs", "directive_location", min_sig=1),
+        GF("directive.rs", "directive_locations", min_sig=1, inline_combinators=1, n_loops=1, loops=[gloop(min_before=1)]),
+        GF("extensions.rs", "extensions", min_sig=4, progress=LOOK, extra=[("requires", "lookahead_present_or_lexer_exhausted", "old(p).ready()")]),
 
 
         # ---------------- the document ----------------
@@ -823,7 +856,7 @@ UNIT = {
                   ("ensures", "whole_input_consumed_unless_token_limit", "!final(p).lexer.limited() ==> cur_text(final(p).current_token) =~= Seq::<char>::empty() && final(p).lexer.rest() =~= Seq::<char>::empty()", ["C02"])],
            rewrites=[(r'assert_eq!\(\s*p\.recursion_limit\.current,\s*0,\s*"unbalanced limit increment / decrement"\s*\);', "assert!(p.recursion_limit.current == 0);", 1, "re")],
            inline_combinators=1, n_loops=1,
-           loops=[dict(invariant=[("conserved", "p.conserved(old(p)), p.fuel() <= old(p).fuel()"), ("recursion_bookkeeping_balanced", "p.recursion_limit.current == 0", ["C01", "C04"])],
+           loops=[dict(invariant=[("conserved", "p.conserved(old(p)), p.fuel() <= old(p).fuel()"), ("eof_stays_consumed", "old(p).eof_consumed() ==> p.eof_consumed()"), ("recursion_bookkeeping_balanced", "p.recursion_limit.current == 0", ["C01", "C04"])],
                        ensures=[("whole_input_consumed_unless_token_limit", "!p.lexer.limited() ==> cur_text(p.current_token) =~= Seq::<char>::empty() && p.lexer.rest() =~= Seq::<char>::empty()")],
                        decreases="p.fuel()")]),
         P("parse", [("requires", "wf", "self_in.wf()"),
